@@ -367,7 +367,7 @@ func Main(id string, run func(c *Ctx), replay func(c *Ctx, path string)) {
 	fs := flag.NewFlagSet(id, flag.ExitOnError)
 	fs.StringVar(&tier, "tier", tier, "quick or thorough")
 	replayPath := fs.String("replay", "", "replay file to re-execute")
-	budget := fs.Duration("budget", 0, "internal deadline (default: quick 8m, thorough 50m)")
+	budget := fs.Duration("budget", 0, "internal deadline (default: quick 15m, thorough 50m)")
 	noEvidence := fs.Bool("no-evidence", false, "do not write the evidence file")
 	_ = fs.Parse(os.Args[1:])
 	if tier != "quick" && tier != "thorough" {
@@ -376,7 +376,7 @@ func Main(id string, run func(c *Ctx), replay func(c *Ctx, path string)) {
 	}
 	seed, _ := strconv.ParseInt(os.Getenv("VERIF_SEED"), 10, 64)
 	if *budget == 0 {
-		*budget = 8 * time.Minute
+		*budget = 15 * time.Minute
 		if tier == "thorough" {
 			*budget = 50 * time.Minute
 		}
